@@ -1,6 +1,9 @@
 package drivers
 
 import (
+	"time"
+	"runtime"
+	"sort"
 	"encoding/json"
 	"fmt"
 	"math/rand"
@@ -49,6 +52,28 @@ func TestDrive(t *testing.T) {
 	}
 	defer os.RemoveAll(scratch)
 	d := &Driver{T: t, Out: out, Scratch: scratch, Shard: shard, Rng: rand.New(rand.NewSource(seed*1000 + int64(shard)))}
+	// Real-time watchdog (outside every bubble). A goroutine of the code under test that SPINS is never
+	// durably blocked, so synctest cannot report the hang; executions normally take milliseconds, so no
+	// logged event and no released gate for a long stretch of real time inside one execution is a livelock.
+	// The process ends with exit code 77 and the goroutine stacks; the orchestrator decides what that means.
+	limit := time.Duration(envInt("VERIF_WATCHDOG_S", 60)) * time.Second
+	go func() {
+		last, since := ctl.Progress.Load(), time.Now()
+		for {
+			time.Sleep(time.Second)
+			if cur := ctl.Progress.Load(); cur != last || !InRun.Load() {
+				last, since = cur, time.Now()
+				continue
+			}
+			if time.Since(since) > limit {
+				buf := make([]byte, 1<<20)
+				n := runtime.Stack(buf, true)
+				fmt.Printf("harness-watchdog: livelock: no event and no released gate for %v of real time inside one execution (run %d)\n%s\n",
+					limit, d.Shard*100000+d.RunNo+1, buf[:n])
+				os.Exit(77)
+			}
+		}
+	}()
 	d.RunFamily(fam, runs)
 	d.Finish()
 }
@@ -338,16 +363,35 @@ func (d *Driver) faultRuns(runs int) {
 		res := d.simple(scn, NewPrioSched(seed, 2, 100), map[string]any{"fault": "none"})
 		i++
 		nops := 0
+		// the operations by class (who does what), so that rare ones (the merger's Persist, a Load, a List) are hit as often as the frequent ones
+		classes := map[string][]int{}
+		var classNames []string
 		for _, e := range res.Events {
 			if _, ok := e["op"]; ok {
-				if n := e["op"].(int); n+1 > nops {
+				n := e["op"].(int)
+				if n+1 > nops {
 					nops = n + 1
 				}
+				ev, _ := e["ev"].(string)
+				if n < 2 || ev == "PersistEnd" {
+					continue
+				}
+				cl := fmt.Sprint(e["proc"], ":", ev, ":", e["kind"])
+				if _, ok := classes[cl]; !ok {
+					classNames = append(classNames, cl)
+				}
+				classes[cl] = append(classes[cl], n)
 			}
 		}
+		sort.Strings(classNames)
 		// every placement would be nops*3 runs; take a seeded sample per scenario
 		for k := 0; k < 6 && i < runs && nops > 2; k++ {
-			f := ctl.Fault{Op: 2 + d.Rng.Intn(nops-2), Stage: []string{"before", "partial", "after"}[d.Rng.Intn(3)]}
+			op := 2 + d.Rng.Intn(nops-2)
+			if k%2 == 1 && len(classNames) > 0 {
+				c := classes[classNames[d.Rng.Intn(len(classNames))]]
+				op = c[d.Rng.Intn(len(c))]
+			}
+			f := ctl.Fault{Op: op, Stage: []string{"before", "partial", "after"}[d.Rng.Intn(3)]}
 			if d.Rng.Intn(3) == 0 {
 				f.Sticky = 1 + d.Rng.Intn(2)
 			}
@@ -571,6 +615,9 @@ func (d *Driver) RunFamily(fam string, runs int) {
 			scn := d.mergeScenario()
 			scn.Name = "close"
 			scn.CloseLast = false
+			if r.Intn(2) == 0 {
+				scn.Hammer = 4 + r.Intn(8)
+			}
 			scn.Opts.Path = "FS"
 			scn.Opts.IntroGates = r.Intn(2) == 0
 			if r.Intn(2) == 0 {
@@ -589,6 +636,7 @@ func (d *Driver) RunFamily(fam string, runs int) {
 			scn.Free, scn.RootObs, scn.Readers, scn.Second, scn.MergeWindow = true, false, 0, false, 0
 			scn.Opts.Path = "FS"
 			scn.FreeReaders = r.Intn(4)
+			scn.Churn = r.Intn(2) * (1 + r.Intn(6))
 			nc := 2 + r.Intn(5)
 			scn.Clients = nil
 			for c := 0; c < nc; c++ {
